@@ -24,6 +24,10 @@ void nack_cb(coap_session_t *s, const coap_pdu_t *sent, const coap_nack_reason_t
   // A NACK without the sent PDU is libcoap's notification of a Reset that matched nothing it tracks (e.g. RST of a NON,
   // or a late RST for a message already concluded); it is not an outcome of a tracked Confirmable and is not judged.
   if (!sent) { g->w.count("probe.nack_unmatched_rst"); return; }
+  // COAP_NACK_ICMP_ISSUE is libcoap's report that the network signalled "unreachable" for this session (documented as
+  // informational; the message stays queued and goes on being retransmitted): not an outcome either, the exchange must still end
+  // in exactly one of ACK / RST / TOO_MANY_RETRIES on the unchanged schedule.
+  if (reason == COAP_NACK_ICMP_ISSUE) { g->w.count("probe.nack_icmp_issue"); return; }
   g->r3->on_nack(0, s, mid, reason);
 }
 coap_response_t resp_cb(coap_session_t *s, const coap_pdu_t *, const coap_pdu_t *rcv, const coap_mid_t mid) {
@@ -95,6 +99,7 @@ struct C06 : Property {
           else if (x < 0.73) replies.push_back({{"sess", s}, {"rx", k}, {"kind", "ack_wrong_mid"}});
           else if (x < 0.80) replies.push_back({{"sess", s}, {"rx", k}, {"kind", r.chance(0.5) ? "sep_con" : "sep_non"}, {"delay_us", r.range(0, (int64_t)at * 1500)}});
           else if (x < 0.83) replies.push_back({{"sess", s}, {"rx", k}, {"kind", "non_same_mid"}, {"delay_us", r.range(0, 100000)}});
+          else if (x < 0.88) replies.push_back({{"sess", s}, {"rx", k}, {"kind", "icmp"}, {"delay_us", r.range(0, (int64_t)at * 2500)}});
         }
       for (int dir = 0; dir < 2; dir++)
         for (int k = 0; k < 12; k++) {
@@ -121,6 +126,7 @@ struct C06 : Property {
     World &w = cw.w;
     w.begin(plan.value("sched_salt", 1ull), &res, verbose, false);
     w.max_sim_ns = 60000ull * 1000000000ull;
+    simk::K().icmp_recv_only = true;
     R3Monitor r3(w, res);
     cw.r3 = &r3;
     const json &cfg = plan["config"];
@@ -192,6 +198,13 @@ struct C06 : Property {
             nm.payload = {'z'};
             Bytes b = r1::encode_udp(nm);
             w.after_us(delay, [fd, to, b]() { simk::raw_sendto(fd, to, b); });
+            continue;
+          }
+          if (kind == "icmp") {
+            // nothing listens for this datagram after all (the peer process is restarting): the network answers with ICMP port
+            // unreachable, which the client's connected socket reports as ECONNREFUSED on its next read
+            simk::Datagram copy = d;
+            w.after_us(delay, [copy]() { simk::deliver_icmp_unreach(copy); });
             continue;
           }
           if (kind == "ack") send(fd, 2, mid, delay);
